@@ -254,7 +254,7 @@ class TermMixin:
                             self.M.write_path(ns, loc, path, self.M.refine_enum(ns, ev, {vi}))
                         except Dead:
                             continue
-                        if len(ev.variants) > 1 and self._want_partition(fr, b, "variant", ev.name):
+                        if len(ev.variants) > 1 and (self._want_partition(fr, b, "variant", ev.name) or self._key_adt(ev)):
                             ns.key = ns.key + (("variant", ev.name, T.variant_name(ev.ty, vi)),)
                         out.append((x, ns))
                     rest = {z[0] for z in ev.variants if z[0] not in handled}
@@ -262,7 +262,7 @@ class TermMixin:
                         ns = st.fork()
                         try:
                             self.M.write_path(ns, loc, path, self.M.refine_enum(ns, ev, rest))
-                            if len(ev.variants) > len(rest) and self._want_partition(fr, b, "variant", ev.name):
+                            if len(ev.variants) > len(rest) and (self._want_partition(fr, b, "variant", ev.name) or self._key_adt(ev)):
                                 ns.key = ns.key + (("variant", ev.name, "|".join(self.T.variant_name(ev.ty, z) for z in sorted(rest))),)
                             out.append((other, ns))
                         except Dead:
@@ -346,6 +346,12 @@ class TermMixin:
                 seen.add(x)
                 out.append((x, st.fork()))
         return out
+
+    def _key_adt(self, ev):
+        if not self.key_adts or not isinstance(ev.ty, int):
+            return False
+        t = self.T.t(ev.ty)
+        return t["k"] == "adt" and t["path"] in self.key_adts
 
     def _bits_name(self, bits):
         parts = []
@@ -568,6 +574,12 @@ class TermMixin:
                 r = c(self, st, fr, f, args, site)
                 if r is not None:
                     return r
+        if lp and lp in self.cuts:
+            self.cut_uses[lp] += 1
+            r = self.cut_call(st, fr, f, lp, args, site)
+            if r is not None:
+                return r
+            return self.default_call(st, fr, f, args, site)
         if lp:
             body = self.F.body(lp)
             if self.inline_filter is None or self.inline_filter(lp):
@@ -610,6 +622,46 @@ class TermMixin:
             else:
                 return None
         return self.run_body(body, sub, argv, st, fr, site)
+
+    def cut_call(self, st, fr, f, lp, args, site):
+        """Modular call of a local nom-shaped parser `fn(&[u8], ..) -> IResult<&[u8], O, E>`: assumes only the weak
+        parser contract (on Ok the remainder is a suffix of the input); the rule verifies that contract on the
+        callee's own exits (assume/guarantee by type)."""
+        from engine.contracts import ret_ty
+        if not args or not isinstance(args[0], Slice):
+            return None
+        rt = ret_ty(self, site)
+        if rt is None:
+            return None
+        tt = self.T.t(rt)
+        if tt["k"] != "adt" or not tt["path"].endswith("result::Result"):
+            return None
+        inp = args[0]
+        base = self.M.force(st, Top(rt, "cut#%d" % self._hv()))
+        if not isinstance(base, Enum) or len(base.variants) != 2:
+            return None
+        okp = base.variants[0][1][0]
+        if isinstance(okp, Top):
+            okp = self.M.force(st, okp)
+        if not (isinstance(okp, Struct) and len(okp.fields) == 2):
+            return None
+        r0 = okp.fields[0]
+        if isinstance(r0, Top):
+            r0 = self.M.force(st, r0)
+        if not isinstance(r0, Slice):
+            return None
+        outs = []
+        ns = st.fork()
+        c = self.fresh_int("cut_consumed", 64, False, 0, self.len_max)
+        self.len_syms.add(c.lin.single_sym())
+        try:
+            ns.add_fact(inp.len.sub(c.lin), self)
+            rest = Slice(inp.base, inp.off.add(c.lin), inp.len.sub(c.lin), inp.elem)
+            outs.append((ns, Enum(base.ty, ((0, (Struct(okp.ty, (rest, okp.fields[1])),)),), "cut")))
+        except Dead:
+            pass
+        outs.append((st.fork(), Enum(base.ty, (base.variants[1],), "cut")))
+        return outs
 
     def default_call(self, st, fr, f, args, site):
         """Unknown external callee: total, havocs what its &mut arguments point to, returns top."""
